@@ -21,7 +21,16 @@ def main():
     a = ap.parse_args()
     seed = int(os.environ.get("VERIF_SEED", "20260930"))
     pid = a.pid.upper()
-    ctx = Ctx(pid, a.tier if a.tier in ("quick", "thorough") else "quick", seed)
+    tier = a.tier if a.tier in ("quick", "thorough") else "quick"
+    replay = None
+    if a.replay:
+        import json
+        with open(a.replay) as fh:
+            replay = json.load(fh)
+        # a replay re-runs the deterministic check with the seed and tier recorded in the file and reports whether
+        # the recorded failure (same key) appears again on the current tree
+        seed, tier = int(replay.get("seed", seed)), replay.get("tier", tier)
+    ctx = Ctx(pid, tier, seed)
     mod = importlib.import_module("p_" + pid.lower())
     with Lock():
         run_translator(ctx, mod.UNITS)
@@ -29,13 +38,15 @@ def main():
         grep_forbidden(ctx)
         if hasattr(mod, "post_build"):
             mod.post_build(ctx)
-    if a.replay:
-        ctx.replay = a.replay
     try:
         mod.check(ctx)
     except Exception as e:  # noqa: BLE001
         tb = traceback.format_exc()
         ctx.fail("correspondence", f"{pid}/harness/crash", f"the correspondence/oracle harness could not run: {type(e).__name__}: {e}\n{tb[-1500:]}")
+    if replay is not None:
+        keys = {replay.get("key")} | {w.get("key") for w in replay.get("no_longer_checks", [])}
+        again = [f for f in ctx.failures if f.key in keys]
+        print(f"REPLAY {a.replay}: recorded failure key(s) {sorted(k for k in keys if k)} " + ("REPRODUCED: " + again[0].what[:300] if again else "not reproduced on the current tree"))
     rc = finish(ctx, level="proof", assumptions=getattr(mod, "ASSUMPTIONS", []))
     print(f"{pid} tier={ctx.tier} obligations={ctx.discharged}/{ctx.obligations} evaluations={ctx.evaluations} "
           f"failures={len(ctx.failures)} wall={common.time.time() - ctx.t0:.1f}s -> exit {rc}")
